@@ -381,6 +381,18 @@ func checkC02(sc *Scenario, t *Truth) []Violation {
 							break
 						}
 					}
+					// ... nor once a stop/shutdown has been *requested*: a request invoked at a
+					// strictly earlier fake instant than the relaunch precedes it whatever the
+					// interleaving (requests of the same instant may linearise either way)
+					if sc.Strategy.StallPermille == 0 {
+						for _, c := range stops {
+							if (c.Op == "stop" || c.Op == "stopmany" || c.Op == "shutdown") && c.CallT < next.ExecT && c.CallSeq > in.ExecSeq && (c.Err == "" || c.RetSeq < 0) {
+								vs = append(vs, Violation{"C02", "relaunch-after-stop-requested", c.Op + " status-at-call=" + t.StatusAt(rep, c.CallSeq),
+									fmt.Sprintf("%s relaunched at t=%v although %s had been requested at t=%v (status then: %s)", rep, next.ExecT, c.Desc, c.CallT, t.StatusAt(rep, c.CallSeq)), next.ExecSeq})
+								break
+							}
+						}
+					}
 					restarts++
 				}
 			} else if owed && !stopInvolved && sc.Arm != "open" {
